@@ -180,6 +180,16 @@ fn grow(base: &[Cfg]) -> Vec<Cfg> {
 /// is the guarded member generated? placement: 0 field, 1 variant, 2 type, 3 struct-variant field
 fn actually_kept(cfgs: &[Cfg], targets: &[char], placement: usize) -> Result<bool, String> {
     let attrs: String = cfgs.iter().map(|c| format!("#[cfg({})] ", c.text())).collect();
+    kept_with_attrs(&attrs, targets, placement)
+}
+/// (attribute text, must the member be generated?) - skip markers in either spelling, in any attribute position
+const SKIP_CASES: [(&str, bool); 11] = [
+    ("#[serde(skip)]", false), ("#[typeshare(skip)]", false),
+    ("#[serde(default)] #[serde(skip)]", false), ("#[serde(rename = \"x\")] #[typeshare(skip)]", false),
+    ("#[serde(default, skip)]", false), ("#[doc = \"d\"] #[serde(skip)]", false), ("#[typeshare(skip)] #[serde(default)]", false),
+    ("#[serde(default)]", true), ("#[serde(rename = \"skip\")]", true), ("#[doc = \"skip\"]", true), ("", true),
+];
+fn kept_with_attrs(attrs: &str, targets: &[char], placement: usize) -> Result<bool, String> {
     let src = match placement {
         0 => format!("#[typeshare]\npub struct S {{ pub keep: u8, {attrs} pub guarded: u8 }}\n"),
         1 => format!("#[typeshare]\npub enum E {{ Keep, {attrs} Guarded }}\n"),
@@ -360,10 +370,23 @@ fn main() {
             let report = |i: usize, t: usize, p: usize, m: String| { println!("WITNESS {{\"input\": {{\"case\": {}, \"targets\": {}, \"placement\": {}}}, \"fails\": {:?}}}", i, t, p, m); std::process::exit(1); };
             if a[1] == "tos-check" {
                 let (i, t, p): (usize, usize, usize) = (a[2].parse().unwrap(), a[3].parse().unwrap(), a[4].parse().unwrap());
+                if i >= 1_000_000 {
+                    let (attrs, want) = SKIP_CASES[i - 1_000_000];
+                    match kept_with_attrs(attrs, &target_sets[t], p) { Ok(got) if got == want => {}, Ok(_) => report(i, t, p, format!("member with attributes `{}` generated/dropped wrongly", attrs)), Err(e) => report(i, t, p, e) }
+                    println!("input passes"); std::process::exit(0);
+                }
                 if let Some(m) = tos_case(&all[i], &target_sets[t], p) { report(i, t, p, m); }
                 println!("input passes"); std::process::exit(0);
             }
             let mut tried = 0u64;
+            // C03: skip markers (case numbers 1_000_000 + k)
+            for (k, (attrs, want)) in SKIP_CASES.iter().enumerate() { for p in [0usize, 1, 3] { for (t, ts) in target_sets.iter().enumerate().take(2) {
+                tried += 1;
+                match kept_with_attrs(attrs, ts, p) {
+                    Err(e) => report(1_000_000 + k, t, p, e),
+                    Ok(got) => if got != *want { report(1_000_000 + k, t, p, format!("member with attributes `{}` is {}, but must be {} (skip markers: serde(skip) / typeshare(skip) in any attribute)", attrs, if got { "generated" } else { "dropped" }, if *want { "generated" } else { "dropped" })) },
+                }
+            } } }
             for (i, cfgs) in all.iter().enumerate() { for (t, ts) in target_sets.iter().enumerate() {
                 for p in 0..4 { if p > 0 && i % 7 != 0 { continue; }   // every case at field level; every 7th also at the other levels
                     tried += 1;
